@@ -688,7 +688,7 @@ fn main() {
         run_header(&scratch, &format!("corpus{i}"), &text, None, &all, true, false, &mut stats, &mut issues);
     }
 
-    let (n_batches, per_batch) = if thorough { (220, 45) } else { (12, 25) };
+    let (n_batches, per_batch) = if thorough { (300, 45) } else { (12, 25) };
     let mut progs: Vec<Program> = vec![];
     for b in 0..n_batches {
         let mut cfg = GenCfg { n_decls: per_batch, ..Default::default() };
